@@ -337,7 +337,7 @@ void run_C07(void) {
   const int th = G.thorough;
   for (size_t ni = 0; ni < N_ALL_N; ni++) {
     const uint64_t N = ALL_N[ni];
-    const unsigned seeds = th ? (N <= 1024 ? 60 : (N <= 8192 ? 12 : 4)) : (N <= 256 ? 6 : (N <= 4096 ? 3 : 1));
+    const unsigned seeds = th ? (N <= 1024 ? 300 : (N <= 8192 ? 60 : 16)) : (N <= 256 ? 16 : (N <= 4096 ? 6 : 2));
     for (int oi = 0; oi < N_CAT_OPS; oi++) {
       const opdef_t* o = &OPS[oi];
       if ((o->flags & OPF_AVX) && o->twin)
